@@ -129,6 +129,9 @@ def oracle(d, s, z):
 
 
 def run(prog, rep, tier):
+    # the equations a row satisfies are those of the graph / ordering as constructed: both are the model's own objects
+    from .common import ctor_copies
+    ctor_copies(rep, prog, AN + "__init__", attrs=("A", "ordering"), rule="CTOR.own")
     f = need(prog, AN + "sample")
     S = Sym(prog, inline=inline_helpers(prog, "sempler.anm"))
     summ, _ = run_function(S, f)
